@@ -12,6 +12,8 @@ import (
 	"strconv"
 	"strings"
 	"sync"
+
+	"github.com/Vedant9500/WTF/internal/nlp"
 )
 
 // Query vocabulary harvested from the CURRENT source of the un-modelled NLP code: every string literal that the code
@@ -20,10 +22,11 @@ import (
 // nothing is hard-coded here, so new branches are reached as soon as they are written.
 
 var (
-	harvestOnce   sync.Once
-	harvestCond   []string   // literals used in conditions
-	harvestAll    []string   // every other word-like literal
-	harvestGroups [][]string // condition literals that sit within a few lines of each other (one decision)
+	harvestOnce      sync.Once
+	harvestCond      []string   // literals used in conditions
+	harvestAll       []string   // every other word-like literal
+	harvestGroups    [][]string // condition literals that sit within a few lines of each other (one decision)
+	harvestTabGroups [][]string // a table key together with the keys it expands to
 )
 
 type condLit struct {
@@ -202,6 +205,30 @@ func harvest() {
 		for s := range all {
 			harvestAll = append(harvestAll, s)
 		}
+		// the keys of the NLP word tables (read from the built code): action words, target nouns, words with synonyms;
+		// related keys (one expands to the other) form decisions of their own
+		at, tt, st := nlp.VerifTables()
+		for _, m := range []map[string][]string{at, tt, st} {
+			keys := make([]string, 0, len(m))
+			for k := range m {
+				keys = append(keys, k)
+			}
+			sort.Strings(keys)
+			for _, k := range keys {
+				if !all[k] && !cond[k] && wordLike(k) {
+					harvestAll = append(harvestAll, k)
+				}
+				var grp []string
+				for _, v := range m[k] {
+					if _, isKey := m[v]; isKey && v != k {
+						grp = append(grp, v)
+					}
+				}
+				if len(grp) > 0 {
+					harvestTabGroups = append(harvestTabGroups, append([]string{k}, grp...))
+				}
+			}
+		}
 		sort.Strings(harvestCond)
 		sort.Strings(harvestAll)
 		sort.SliceStable(located, func(i, j int) bool {
@@ -241,8 +268,11 @@ func harvestedQuery(r *rand.Rand, id int) string {
 		return "list files"
 	}
 	pool := harvestCond
-	if len(harvestGroups) > 0 && r.Intn(4) != 0 { // the phrases of ONE decision, so that conjunctions of tests are met; groups are swept by case number
+	switch x := r.Intn(8); {
+	case x < 4 && len(harvestGroups) > 0: // the phrases of ONE decision, so that conjunctions of tests are met; swept by case number
 		pool = harvestGroups[id%len(harvestGroups)]
+	case x < 6 && len(harvestTabGroups) > 0: // a table key and the keys it expands to, in either order
+		pool = harvestTabGroups[id%len(harvestTabGroups)]
 	}
 	var parts []string
 	for i, k := 0, 2+r.Intn(3); i < k; i++ {
